@@ -384,6 +384,7 @@ class Engine:
         self.unknowns = []
         self.implied = {}
         self.model = None
+        self.lru = {}
         self.domains = {}
         self.summarize = set()   # pure repository functions explored once per call site and returned as one ite term
         self.in_summary = 0
@@ -445,6 +446,7 @@ class Engine:
             self.fresh_n = 0
             self.implied = {}
             self.model = None
+            self.lru = {}
             try:
                 r = harness(self)
                 results.append(r)
@@ -776,6 +778,19 @@ class Engine:
             return stub(self, list(args), kwargs)
         if isinstance(fn, SymCallable):
             return fn(*args, **kwargs)
+        if type(fn).__name__ == '_lru_cache_wrapper' and hasattr(fn, '__wrapped__') and \
+                (any(is_sym(a) for a in list(args) + list(kwargs.values())) or self.always_interpret):
+            # functools.lru_cache: a memo keyed by the arguments (solver-decided equality of keys); the memo lives for one path
+            from . import builtins_model as bm
+            memo = self.lru.setdefault(id(fn), [])
+            key = tuple(args) + tuple(sorted(kwargs.items()))
+            for k_old, r_old in memo:
+                e = bm.values_equal(self, k_old, key) if len(k_old) == len(key) else False
+                if e is True or (e is not False and self.decide(e)):
+                    return r_old
+            r = self.call(fn.__wrapped__, args, kwargs)
+            memo.append((key, r))
+            return r
         from . import builtins_model as bm
         r = bm.call_builtin(self, fn, args, kwargs)
         if r is not bm.NOT_HANDLED:
